@@ -563,6 +563,14 @@ fn judge_rotate_r<R: Real>(cx: &Cx, w: &[u64], got: &[f64; 4], t: &mut Tally) ->
     Ok(())
 }
 
+fn fword(bits: u32, w: u64) -> f64 {
+    if bits == 32 {
+        f32::from_bits(w as u32) as f64
+    } else {
+        f64::from_bits(w)
+    }
+}
+
 // ================================================================ lerp endpoints, move_towards, clamp_length (all vector types)
 
 #[derive(Default, Debug)]
@@ -573,6 +581,11 @@ pub struct LmcOut {
     pub midpoint: [f64; 4],
     pub mv: [f64; 4],
     pub mv_bits: [u64; 4],
+    /// move_towards(b, self.distance(b)) with the distance the library itself computes: documented to equal `b`
+    pub mv_own_dist_bits: [u64; 4],
+    /// move_towards(b, 0.0): documented to equal `self`
+    pub mv_zero_bits: [u64; 4],
+    pub own_dist: f64,
     pub clamp: [f64; 4],
     pub clamp_bits: [u64; 4],
     pub clamp_min: [f64; 4],
@@ -647,6 +660,22 @@ fn judge_lmc_r<R: Real>(cx: &Cx, w: &[u64], o: &LmcOut, t: &mut Tally) -> Result
         let certain_reach = len < d - sl || len < thr - sl;
         let certain_far = len > d + sl && len > thr + sl;
         let is_b = bits_eq(&o.mv_bits[..n], &w[n..2 * n]);
+        // the two documented end points, with the library's own distance: d == self.distance(rhs) gives rhs, d == 0 gives self
+        if o.own_dist.is_finite() {
+            if !bits_eq(&o.mv_own_dist_bits[..n], &w[n..2 * n]) {
+                let same_value = (0..n).all(|i| fword(bits, o.mv_own_dist_bits[i]) == fword(bits, w[n + i]));
+                if !same_value {
+                    return Err(cx.fail("move_towards", format!("move_towards(rhs, self.distance(rhs) = {:e}) is documented to equal rhs but returned bits {:x?}; {}", o.own_dist, &o.mv_own_dist_bits[..n], ctx())));
+                }
+            }
+            t.class("move_towards:d == own distance");
+            if o.own_dist > thr {
+                let same_value = (0..n).all(|i| fword(bits, o.mv_zero_bits[i]) == fword(bits, w[i]));
+                if !same_value {
+                    return Err(cx.fail("move_towards", format!("move_towards(rhs, 0.0) is documented to equal self but returned bits {:x?}; {}", &o.mv_zero_bits[..n], ctx())));
+                }
+            }
+        }
         let far_check = |t: &mut Tally| -> Result<(), String> {
             let tol = K * u * (na + nb + d.abs()) + 4.0 * tiny;
             let dir: Vec<R> = diff.iter().map(|x| x.div(R::of(len))).collect();
